@@ -506,3 +506,33 @@ pub fn b_flatten(meth: u8) {
     assert!(rest == want, "ORACLE: the cells remaining after the call are not the ideal remaining sequence");
     end_reached!();
 }
+
+/// copy_within with a rectangle that does not fit must panic. recv 0 owned, 1 strided view_mut.
+/// draws: cols, rows, stride, tl_c, tl_r, br_c, br_r, dest_c, dest_r
+pub fn b_copy_within(recv: u8) {
+    let cols = nd::usize_();
+    let rows = nd::usize_();
+    let stride = nd::usize_();
+    let tl = (nd::usize_(), nd::usize_());
+    let br = (nd::usize_(), nd::usize_());
+    let dest = (nd::usize_(), nd::usize_());
+    nd::assume(cols <= 64 && rows <= 64 && stride <= 64 && cols <= stride && (cols == 0) == (rows == 0));
+    let stride = if recv == 0 { cols } else { stride };
+    let fits_src = tl.0 <= br.0 && tl.1 <= br.1 && br.0 <= cols && br.1 <= rows;
+    let fits = fits_src
+        && dest.0.checked_add(br.0 - tl.0).map_or(false, |e| e <= cols)
+        && dest.1.checked_add(br.1 - tl.1).map_or(false, |e| e <= rows);
+    nd::assume(!fits);
+    let mut buf = grid(stride.max(1), rows.max(1));
+    if recv == 0 {
+        buf.truncate(cols * rows);
+        let mut t = TooDee::from_vec(cols, rows, buf);
+        t.copy_within((tl, br), dest);
+    } else {
+        let n = stride * rows;
+        let mut parent = TooDeeViewMut::new(stride, rows, &mut buf[..n]);
+        let mut v = parent.view_mut((0, 0), (cols, rows));
+        v.copy_within((tl, br), dest);
+    }
+    returned!();
+}
